@@ -374,6 +374,28 @@ def make_freq_estimator():
     return TableFreq
 
 
+def used_prefix(ctx, tag, clf, Xtr, lab, cfg, Xq, cols=None):
+    """A USED object: before the fit of interest the same classifier object is fitted on the same rows with every row
+    labelled (labels cycling through the declared classes) and asked for probabilities.  `fit` starts from scratch
+    (C13), so every clause checked afterwards -- the uniform distribution for a training set without labels included --
+    must come out as for a fresh object."""
+    ntr = len(Xtr)
+    if not ntr or cfg["k"] < 2 or cfg["seed"] % 2:
+        return
+    if cols is None:
+        y_prior = lab.y([i % cfg["k"] for i in range(ntr)])
+    else:
+        y_prior = lab.y([(i + j) % cfg["k"] for i in range(ntr) for j in range(cols)]).reshape(ntr, cols)
+    try:
+        with np.errstate(all="ignore"), warnings.catch_warnings():
+            warnings.simplefilter("ignore")
+            clf.fit(Xtr, y_prior)
+            clf.predict_proba(Xq)
+        ctx.count(tag + "_used_object_prefix")
+    except Exception:  # noqa: BLE001  (an inadmissible earlier training set: no history then)
+        ctx.count(tag + "_used_object_prefix_raised")
+
+
 def case_freq(ctx, lines, expect, cfg):
     TableFreq = make_freq_estimator()
     lab, y, w, classes, cost = materialize(cfg)
@@ -493,6 +515,7 @@ def case_pwc(ctx, lines, expect, cfg):
     clf = ParzenWindowClassifier(n_neighbors=cfg.get("n_neighbors"), metric=metric, classes=classes,
                                  missing_label=lab.missing, cost_matrix=cost,
                                  class_prior=prior if np.isscalar(prior) else list(prior), random_state=0)
+    used_prefix(ctx, "pwc", clf, Xtr, lab, cfg, Xq)
     try:
         clf.fit(Xtr, y, sample_weight=w)
     except Exception as e:
@@ -1117,6 +1140,7 @@ def case_ens(ctx, lines, expect, cfg):
             members.append((f"m{j}", ParzenWindowClassifier(metric_dict={"gamma": 0.25}, missing_label=lab.missing, random_state=j, classes=mcls)))
     clf = AnnotatorEnsembleClassifier(members, voting=cfg["voting"], classes=classes, missing_label=lab.missing,
                                       cost_matrix=cost, random_state=0)
+    used_prefix(ctx, "ens", clf, Xtr, lab, cfg, Xq, cols=e)
     try:
         clf.fit(Xtr, y, sample_weight=w)
     except Exception as ex:
@@ -1194,6 +1218,18 @@ def case_alr(ctx, lines, expect, cfg):
     n = len(Xq)
     clf = AnnotatorLogisticRegression(n_annotators=a, classes=classes, missing_label=lab.missing, cost_matrix=cost,
                                       max_iter=5, random_state=0)
+    if ntr and cfg["k"] >= 2 and cfg["seed"] % 2 == 0:
+        # a USED object: the same classifier has been fitted before on the same rows with every annotator labelling every
+        # row (labels cycling through the classes) and asked for probabilities; `fit` starts from scratch, so everything
+        # below -- the uniform distribution for a training set without labels included -- must be as for a fresh object
+        y_prior = lab.y([(i + j) % cfg["k"] for i in range(ntr) for j in range(a)]).reshape(ntr, a)
+        try:
+            with np.errstate(all="ignore"):
+                clf.fit(Xtr, y_prior)
+                clf.predict_proba(Xq)
+            ctx.count("alr_used_object_prefix")
+        except Exception:  # noqa: BLE001
+            ctx.count("alr_used_object_prefix_raised")
     try:
         clf.fit(Xtr, y, sample_weight=w)
     except Exception as ex:
